@@ -23,6 +23,31 @@ def suffix(sfx):
     return lambda B, i, t: (callee_of(t) or '').endswith(sfx)
 
 
+def parent_real_dir(rep, F, cg):
+    """`every existing path other than the root has an existing parent that is a REAL directory and lists it`"""
+    from errguard import structural_facts
+    import re
+    R = 'PARENT-REAL-DIR'
+    rep.rule(R, 'Memfs::_add stores a new entry (insert_entry) only on paths where the lookup of the parent succeeded, the parent is_dir() AND the parent is not a '
+             'symlink: a link to a directory is not a directory of the tree — children stored under the link\'s own path are listed by no real directory')
+    fn = M_ + '_add'
+    if fn not in F.bodies:
+        rep.add(R, 'parentreal:_add:anchor', '%s exists' % fn, False, detail='anchor missing')
+        return
+    B = cg.body(fn)
+    sites = [i for i, t in B.calls() if (callee_of(t) or '').endswith('>::insert_entry')]
+    for i in sites:
+        fs = structural_facts(B, i)
+        parent = [d for d, v in fs if v == 'Some' and re.match(r'^get_entry\(arg2,dir\(', d)]
+        isdir = any(re.match(r'^is_dir\(get_entry\(arg2,dir\(', d) and v is True for d, v in fs)
+        notlink = any(re.match(r'^is_symlink\(get_entry\(arg2,dir\(', d) and v is False for d, v in fs)
+        ok = bool(parent) and isdir and notlink
+        rep.add(R, 'parentreal:_add', '_add creates entries only under a real (non-link) directory', ok, B.loc(i),
+                '' if ok else '_add reaches insert_entry with parent found=%s, is_dir(parent)=%s, !is_symlink(parent)=%s: a symlink to a directory is accepted as parent, so '
+                'mkfile("/link/child") stores an entry under the link that no recursive listing from the root reaches' % (bool(parent), isdir, notlink))
+    rep.floor(R, 'insert_entry sites in _add', len(sites), 1)
+
+
 def pair_rules(rep, F, cg, M):
     rep.rule('PAIR', 'in each bookkeeping function, every path from index update A to a normal completion (or, for removals, every path to A) passes the '
              'paired update B, or leaves through the None arm of the lookup that fetches B\'s receiver / the arm that says B does not apply: '
@@ -106,6 +131,7 @@ def run(rep, F, ctx):
     rep.floor('CWD-ABS', 'set_cwd call sites', n_cwd, 1)
 
     pair_rules(rep, F, cg, M)
+    parent_real_dir(rep, F, cg)
     import siteguard as _sg
     _t = engine.load_table('site_guards.json')
     _sg.site_guard(rep, F, cg, _t, _t['_groups']['C03'])
